@@ -190,10 +190,12 @@ class Solver:
         self._compute_powertrain_inertia()
         if self.__powertrain.time:
             initial_time = self.__powertrain.time[-1]
-            final_time = initial_time + simulation_time + time_discretization
+            final_time = initial_time + simulation_time + \
+                time_discretization/2
         else:
             initial_time = Time(value=0, unit=time_discretization.unit)
-            final_time = initial_time + simulation_time + time_discretization
+            final_time = initial_time + simulation_time + \
+                time_discretization/2
             self.__powertrain.update_time(initial_time)
             self._compute_powertrain_variables(motor_control=motor_control)
 
